@@ -41,7 +41,8 @@ func init() {
 	}
 	runners["C07"] = func(c *Ctx) {
 		c.Rep.Rule = respRule + "C07 (attacker-encrypted forged plaintexts as direct child / nested, genuine encrypted signed assertions)"
-		runResponseStream(c, c.N(400, 6000), "C07")
+		runResponseStream(c, c.N(300, 6000), "C07")
+		runDecryptBinding(c, c.N(240, 4800))
 	}
 	runners["C08"] = func(c *Ctx) {
 		c.Rep.Rule = respRule + "C08 (mostly unedited genuine messages over the value repertoire; comment injection after signing; accessors)"
